@@ -308,7 +308,7 @@ func runC13(c any, x *kit.Ctx) {
 }
 
 func genC13(tier string, emit func(any)) {
-	names := []string{"a", "e", "a0", "i", "s"}
+	names := []string{"a", "e", "a0", "i", "s", "t"}
 	maxLen := 2
 	if tier == "thorough" {
 		names = append(names, "b", "a'", "t", "k", "ia")
